@@ -123,6 +123,8 @@ pub fn miss_signature(it: &Item, tree_err: bool) -> String {
         "error_parent_with_anchored_children"
     } else if any_node(it, &|k, ch, _| matches!(k, query::Kind::Error) && !ch.is_empty()) {
         "error_pattern_with_children"
+    } else if any_node(it, &|_, ch, al| (0..ch.len()).any(|j| matches!(&ch[j].item.pat, query::Pat::Node { kind: query::Kind::Error, .. }) && ((j + 1 < ch.len() && ch[j + 1].anchor) || (j + 1 == ch.len() && al) || ch[j].anchor))) {
+        "anchor_next_to_error_sibling"
     } else if tree_err {
         "erroneous_tree"
     } else {
